@@ -268,3 +268,18 @@ Section Align.
     cbn [fst snd]. now rewrite aligned_is_the_meaning.
   Qed.
 End Align.
+
+(* ---------------------------------------------------------------- inverse and composition of rearrangements *)
+Lemma rearrange_inverse d1 d2 rho :
+  rearrange_ok d1 d2 = true -> rearrange_ok d2 d1 = true -> in_bounds rho d1 -> in_bounds rho d2 ->
+  moved d2 d1 (moved d1 d2 (map (pidx rho) d1)) = map (pidx rho) d1.
+Proof. intros H12 H21 B1 B2. rewrite (moved_is_the_meaning d1 d2 H12 rho B1 B2). apply (moved_is_the_meaning d2 d1 H21 rho B2 B1). Qed.
+
+Lemma rearrange_compose d1 d2 d3 rho :
+  rearrange_ok d1 d2 = true -> rearrange_ok d2 d3 = true -> rearrange_ok d1 d3 = true ->
+  in_bounds rho d1 -> in_bounds rho d2 -> in_bounds rho d3 ->
+  moved d2 d3 (moved d1 d2 (map (pidx rho) d1)) = moved d1 d3 (map (pidx rho) d1).
+Proof.
+  intros H12 H23 H13 B1 B2 B3. rewrite (moved_is_the_meaning d1 d2 H12 rho B1 B2), (moved_is_the_meaning d2 d3 H23 rho B2 B3).
+  symmetry. apply (moved_is_the_meaning d1 d3 H13 rho B1 B3).
+Qed.
